@@ -6,9 +6,9 @@ CONSTANTS
   OneHitEnc = TRUE
   ScoreNone = FALSE
   HeapTakeover = 10
-  MaxCalls = 2
+  MaxCalls = 3
   NTerms = 3
-  Family = "deepq"
+  Family = "deepadv"
   DropK1 = FALSE
   Queries <- MCQueries
   FixEmptySnapshot = TRUE
